@@ -19,6 +19,8 @@ pub type C = Command<Effect, Event>;
 pub struct Crux {
     ctx: CommandContext<Effect, Event>,
     uni: Arc<UniCtx>,
+    /// slots of the `Abortable` nodes this task lives under, outermost first
+    enclosing: Arc<Vec<u16>>,
 }
 
 impl Rt for Crux {
@@ -39,8 +41,8 @@ impl Rt for Crux {
         self.ctx.send_event(ev)
     }
     fn spawn(&self, _path: Path, f: Box<dyn FnOnce(Self) -> BoxFuture<'static, ()> + Send>) -> JoinH {
-        let uni = self.uni.clone();
-        let h = self.ctx.spawn(move |ctx| f(Crux { ctx, uni }));
+        let (uni, enclosing) = (self.uni.clone(), self.enclosing.clone());
+        let h = self.ctx.spawn(move |ctx| f(Crux { ctx, uni, enclosing }));
         let h2 = h.clone();
         JoinH { wait: Arc::new(move || h.clone().boxed()), abort: Arc::new(move || h2.abort()) }
     }
@@ -50,6 +52,19 @@ impl Rt for Crux {
     fn export(&self, key: Path, h: JoinH) {
         self.uni.exports.lock().unwrap().push((key, h));
     }
+    fn abort_cmd(&self, choice: u16) -> bool {
+        if self.enclosing.is_empty() {
+            return false;
+        }
+        let slot = self.enclosing[pick(choice, self.enclosing.len())];
+        let hs = self.uni.handles.lock().unwrap().clone();
+        for (s, h) in hs {
+            if s == slot {
+                h();
+            }
+        }
+        true
+    }
 }
 
 /// events of opaque leaves: emitter = [node id], sequence number per node
@@ -58,6 +73,10 @@ fn leaf_event(id: u16, seq: &Arc<AtomicU16>, out: &Out) -> Event {
 }
 
 pub fn compile(c: &Cmd, uni: &Arc<UniCtx>) -> C {
+    compile_in(c, uni, &Arc::new(vec![]))
+}
+
+fn compile_in(c: &Cmd, uni: &Arc<UniCtx>, enclosing: &Arc<Vec<u16>>) -> C {
     let seq = Arc::new(AtomicU16::new(0));
     match c.clone() {
         Cmd::Done => Command::done(),
@@ -93,12 +112,12 @@ pub fn compile(c: &Cmd, uni: &Arc<UniCtx>) -> C {
                 })
                 .then_send(move |o| leaf_event(id, &seq, &o))
         }
-        Cmd::Then(a, b) => compile(&a, uni).then(compile(&b, uni)),
-        Cmd::And(a, b) => compile(&a, uni).and(compile(&b, uni)),
-        Cmd::All(cs) => Command::all(cs.iter().map(|c| compile(c, uni))),
-        Cmd::Collect(cs) => cs.iter().map(|c| compile(c, uni)).collect(),
-        Cmd::MapEvent(id, c) => compile(&c, uni).map_event(move |e| Event::Mapped(id, Box::new(e))),
-        Cmd::MapEffect(id, c) => compile(&c, uni).map_effect(move |e| match e {
+        Cmd::Then(a, b) => compile_in(&a, uni, enclosing).then(compile_in(&b, uni, enclosing)),
+        Cmd::And(a, b) => compile_in(&a, uni, enclosing).and(compile_in(&b, uni, enclosing)),
+        Cmd::All(cs) => Command::all(cs.iter().map(|c| compile_in(c, uni, enclosing))),
+        Cmd::Collect(cs) => cs.iter().map(|c| compile_in(c, uni, enclosing)).collect(),
+        Cmd::MapEvent(id, c) => compile_in(&c, uni, enclosing).map_event(move |e| Event::Mapped(id, Box::new(e))),
+        Cmd::MapEffect(id, c) => compile_in(&c, uni, enclosing).map_effect(move |e| match e {
             Effect::Sim(mut r) => {
                 r.operation.marks.push(id);
                 Effect::Sim(r)
@@ -106,23 +125,25 @@ pub fn compile(c: &Cmd, uni: &Arc<UniCtx>) -> C {
             other => other,
         }),
         Cmd::Async(id, task) => {
-            let uni = uni.clone();
+            let (uni, enclosing) = (uni.clone(), enclosing.clone());
             Command::new(move |ctx| {
                 let sink = uni.sink.clone();
-                task_root(Crux { ctx, uni }, sink, vec![id], task)
+                task_root(Crux { ctx, uni, enclosing }, sink, vec![id], task)
             })
         }
         Cmd::WithSpawn(id, c, task) => {
-            let mut cmd = compile(&c, uni);
-            let uni = uni.clone();
+            let mut cmd = compile_in(&c, uni, enclosing);
+            let (uni, enclosing) = (uni.clone(), enclosing.clone());
             cmd.spawn(move |ctx| {
                 let sink = uni.sink.clone();
-                task_root(Crux { ctx, uni }, sink, vec![id, 9999], task)
+                task_root(Crux { ctx, uni, enclosing }, sink, vec![id, 9999], task)
             });
             cmd
         }
         Cmd::Abortable(slot, c) => {
-            let cmd = compile(&c, uni);
+            let mut inner = (**enclosing).clone();
+            inner.push(slot);
+            let cmd = compile_in(&c, uni, &Arc::new(inner));
             let h = cmd.abort_handle();
             uni.handles.lock().unwrap().push((slot, Arc::new(move || h.abort())));
             cmd
